@@ -364,9 +364,12 @@ class C16Spec(LPSpec):
         out = []
         for _ in range(3):
             c = copy.deepcopy(sc)
+            kinds = list(scenarios.STATUS_FAULTS)
+            if sc.get('limit') is not None and sc['limit'] <= 1e9:
+                kinds += ['tl-incumbent', 'tl-incumbent', 'tl-no-incumbent']
             c['backend']['faults'] = [{
                 'round': rng.randint(1, K),
-                'kind': rng.choice(scenarios.STATUS_FAULTS),
+                'kind': rng.choice(kinds),
                 'persist': rng.random() < 0.5,
                 'values': rng.choice(scenarios.VALUE_MODES)}]
             out.append(c)
